@@ -710,7 +710,7 @@ func genC17uriprog(tier string, rng *Rng) {
 				}
 			}
 		}
-		// the stale-query situations and their neighbours
+		// the former stale-query situations (repaired in /repo 97b0e80; regression) and their neighbours
 		for _, prog := range [][]string{
 			{"QA", "62", "32", "SQ", hx([]byte("c=3")), "-"}, {"QA", "62", "32", "U", hx([]byte("?c=3")), "-"}, {"QD", "61", "-"}, {"QR", "-", "-"}, {"QD", "61", "-", "QA", "62", "32"},
 			{"SQ", hx([]byte("c=3")), "-", "QA", "62", "32"}, {"QA", "62", "32", "SQ", hx([]byte("c=3")), "-", "QD", "7a", "-"}, {"SU", "75", "-", "SW", "70", "-"},
